@@ -87,6 +87,18 @@ def run_scn(scn, on_step):
 
 def check_scn(scn):
     """None if the manager agrees with the reference at every step, else a description"""
+    if scn.get("tzoff") is not None and scn.get("tzprime") is not None:
+        # one process serving two zones: the SAME instants were seen a moment ago with the wall clock of another zone (aware stamps that
+        # denote the same instant compare and hash equal whatever their zone - anything the library remembers per stamp must not leak
+        # from one zone's grid into the other's).  The first pass is only run, not judged.
+        d = (scn["tzprime"] - scn["tzoff"]) * 60
+        other = {k: v for k, v in scn.items() if k != "tzprime"}
+        other["stream"] = [((t[0] + d),) + tuple(t[1:]) if t[0] is not None else t for t in scn["stream"]]
+        try:
+            with cm.aware(scn["tzprime"]):
+                run_scn(other, lambda j, m, consumed: None)
+        except Exception:
+            pass
     with cm.aware(scn.get("tzoff")):
         return _check_scn(scn)
 
@@ -168,7 +180,7 @@ def gen_scn(rng, tf=True, fill=False, ha=False, life=False, size=60):
         if gen.tf_seconds(tfv) * 1400 < 40 * 86400:   # keep the filled series affordable: only for fine timeframes
             stream = stream[:k] + [((t[0] + jump),) + tuple(t[1:]) if t[0] is not None else t for t in stream[k:]]
             meta["huge_gap"] = True
-    tzoff = rng.choice([330, 345, 60, -300, 765, -210]) if (tfv and rng.random() < 0.1) else None
+    tzoff = rng.choice([330, 345, 60, -300, 765, -210]) if (tfv and rng.random() < 0.15) else None
     if ha and rng.random() < 0.15:
         # the four Heikin-Ashi formulas are defined for ANY o/h/l/c: feeds whose close prints outside [low, high], or that give
         # only open / close (high = low = 0, the Candle defaults) - max / min must still range over all of h, HA-open, HA-close
@@ -193,6 +205,8 @@ def gen_scn(rng, tf=True, fill=False, ha=False, life=False, size=60):
     if tfv and rng.random() < 0.3:
         scn["tf_enum"] = True
     if tzoff is not None and stream and all(t[0] is not None for t in stream):
+        if rng.random() < 0.6:
+            scn["tzprime"] = rng.choice([o for o in (0, 330, 345, 60, -300, 765, -210) if o != tzoff])
         scn["tzoff"] = tzoff   # aware stamps, fixed UTC offset: buckets align to the wall clock of the stamps' own zone
         meta["aware"] = True
     if life:
